@@ -20,26 +20,26 @@ template<> struct Delegate<int, photon::rpc::OutOfOrderContext*> : public Delega
 };
 // Stand-in for the engine's std::unordered_map<tag, context*> (libstdc++ container code is outside the property; the real hash
 // table costs > 100 k symbolic-execution steps per insert): a small array (one slot per caller) with the same lookup / insert / erase contract.
-#ifndef MAPSLOTS
 #define MAPSLOTS 2
-#endif
 namespace std {
 template<> class unordered_map<uint64_t, photon::rpc::OutOfOrderContext*> {
 public:
     struct Slot { bool used; uint64_t first; photon::rpc::OutOfOrderContext* second; };
     typedef Slot* iterator;
     Slot s[MAPSLOTS];
-    unordered_map() { for (int i = 0; i < MAPSLOTS; i++) { s[i].used = false; s[i].first = 0; s[i].second = nullptr; } }
+    // loop-free (MAPSLOTS == 2): the leader loop of the engine then fixes the unwinding bound alone
+    unordered_map() { s[0].used = false; s[0].first = 0; s[0].second = nullptr; s[1].used = false; s[1].first = 0; s[1].second = nullptr; }
     iterator end() { return s + MAPSLOTS; }
-    iterator find(uint64_t k) { for (int i = 0; i < MAPSLOTS; i++) if (s[i].used && s[i].first == k) return &s[i]; return end(); }
+    iterator find(uint64_t k) { if (s[0].used && s[0].first == k) return &s[0]; if (s[1].used && s[1].first == k) return &s[1]; return end(); }
     std::pair<iterator, bool> insert(std::pair<uint64_t, photon::rpc::OutOfOrderContext*> v) {
         iterator f = find(v.first); if (f != end()) return {f, false};
-        for (int i = 0; i < MAPSLOTS; i++) if (!s[i].used) { s[i].used = true; s[i].first = v.first; s[i].second = v.second; return {&s[i], true}; }
+        if (!s[0].used) { s[0].used = true; s[0].first = v.first; s[0].second = v.second; return {&s[0], true}; }
+        if (!s[1].used) { s[1].used = true; s[1].first = v.first; s[1].second = v.second; return {&s[1], true}; }
         __CPROVER_assume(false); return {end(), false};
     }
     size_t erase(uint64_t k) { iterator f = find(k); if (f == end()) return 0; f->used = false; return 1; }
     iterator erase(iterator it) { it->used = false; return it + 1; }
-    size_t size() const { size_t n = 0; for (int i = 0; i < MAPSLOTS; i++) if (s[i].used) n++; return n; }
+    size_t size() const { return (size_t)s[0].used + (size_t)s[1].used; }
 };
 }
 #include "rpc/out-of-order-execution.cpp"
@@ -53,10 +53,17 @@ static Raw<OooEngine> E;
 static int owner_of_tag[KN + 3];          // tag -> caller (tags are handed out 1,2,... by the engine)
 static uint64_t mytag[KN]; static uint64_t resp[KN]; static bool live[KN]; static int cret[KN], cerr[KN];
 static OutOfOrderContext* ctxp[KN];
-static Raw<OutOfOrderContext> ctxs[KN];     // the callers' contexts: typed static storage (heap blocks make every access a byte-level extract); 'returned' is tracked by live[]
-static uint64_t cur_tag; static bool delivered[KN + 3]; static int nresp;
+static Raw<OutOfOrderContext> ctxs0, ctxs1, ctxs2, ctxs3;   // separate objects (an array would give the engine's context pointers a symbolic offset into one object)
+#define CTXS(i) ctxs##i     // the callers' contexts: typed static storage (heap blocks make every access a byte-level extract); 'returned' is tracked by live[]
+static uint64_t cur_tag; static bool delivered[KN + 3]; static int nresp; static bool foreign_collect[KN];
 static inline uint64_t payload(uint64_t tag) { return tag * 7 + 1; }
-static inline int owner_ctx(OutOfOrderContext* x) { for (int i = 0; i < KN; i++) if (ctxp[i] == x) return i; return -1; }
+static inline int owner_ctx(OutOfOrderContext* x)
+{
+#define OC_M(i) if (ctxp[i] == x) return i;
+    K_EACH(OC_M)
+#undef OC_M
+    return -1;
+}
 
 static inline __attribute__((always_inline)) int cb_issue(OutOfOrderContext* a)
 {
@@ -70,7 +77,8 @@ static inline __attribute__((always_inline)) int cb_completion(OutOfOrderContext
 #ifdef YIELD_IN_COMPLETION
     if (nondet_bool()) thread_yield();                       // blocking header read
 #endif
-    ASSUME(nresp < NRESP); nresp++;
+    if (nresp >= NRESP) { errno = ECONNRESET; return -1; }   // nothing more arrives: the stream read fails (timeout / reset)
+    nresp++;
 #ifdef STREAM_ERRORS
     if (nondet_bool()) return -1;                            // connection reset while reading a header
 #endif
@@ -85,6 +93,7 @@ static inline __attribute__((always_inline)) int cb_collect(OutOfOrderContext* t
 {
     int o = owner_ctx(targ);
     CHECK(o >= 0 && live[o], "do_collect is only called for a call that has not returned yet");
+    if (o != (int)verif_get_tid()) foreign_collect[o] = true;
     if (nondet_bool()) thread_yield();                       // blocking body read: other callers run, deadlines may expire
     CHECK(live[o], "the call being collected has not returned while its body was being read");
     resp[o] = payload(cur_tag);                              // writes into the target call's response buffer
@@ -95,7 +104,7 @@ static inline __attribute__((always_inline)) int cb_dispatch(int kind, OutOfOrde
 
 template<int ME_> static inline __attribute__((always_inline)) void caller()
 {
-    OutOfOrderContext* c = new (&ctxs[ME_].v) OutOfOrderContext;   // the caller's stack frame; live[ME_] says whether the call is still in progress
+    OutOfOrderContext* c = new (ME_ == 0 ? &ctxs0.v : ME_ == 1 ? &ctxs1.v : ME_ == 2 ? &ctxs2.v : &ctxs3.v) OutOfOrderContext;   // the caller's stack frame; live[ME_] says whether the call is still in progress
     ctxp[ME_] = c; live[ME_] = true;
     c->engine = (OutOfOrder_Execution_Engine*)&E.v;
     c->do_issue.kind = 1; c->do_completion.kind = 2; c->do_collect.kind = 3;
@@ -118,9 +127,13 @@ NOINL void world_final(uint32_t all_done, uint32_t stuck)
 {
     if (all_done) {
         CHECK(E.v.m_map.size() == 0, "quiescence: no call left registered in the engine");
+#if NRESP >= 2
         if (cret[0] >= 0 && cret[1] >= 0) WITNESS("both calls succeeded");
-        if (cret[1] < 0 && cerr[1] == ETIMEDOUT) WITNESS("call 1 timed out");
         if (cret[0] >= 0 && mytag[0] == 1 && cur_tag == 1) WITNESS("responses arrived out of order");
+#endif
+        if (cret[1] < 0 && cerr[1] == ETIMEDOUT) WITNESS("call 1 timed out");
+        if (cret[1] >= 0 && foreign_collect[1]) WITNESS("call 1 succeeded with a response that the other caller read off the wire");
+        if (cret[0] < 0 && cerr[0] != ETIMEDOUT) WITNESS("call 0 failed because the stream failed");
     }
 }
 }
